@@ -191,6 +191,8 @@ def runApp (c : Case) : Res :=
           if nearThreshold ds then ({ sec := s, diff := none, oracles := [], ds := ds, fail := fail } : SecCmp)
           else if modelOutcome ≠ x.outcome then
             { sec := s, diff := some ("dk=outcome", s!"security {s}: outcome model={modelOutcome}({match fail with | some f => failureName f | none => ""}) impl={x.outcome} {x.msg}"), oracles := os, ds := ds, fail := fail }
+          else if modelOutcome == "err" && ds.length ≠ x.deltas.length then
+            { sec := s, diff := some ("dk=outcome", s!"security {s}: outcome model=err({match fail with | some f => failureName f | none => ""})@row{ds.length} impl=err@row{x.deltas.length} {x.msg}"), oracles := os, ds := ds, fail := fail }
           else match cmpDeltas 0 ds x.deltas with
             | some e =>
               let dk := if (e.splitOn "sfl").length > 1 || (e.splitOn "over-applied").length > 1 || (e.splitOn "row count").length > 1 || (e.splitOn "action").length > 1 || (e.splitOn "affiliate").length > 1 then "dk=sfl" else "dk=status"
